@@ -1,6 +1,6 @@
 SPECIFICATION Spec
 CONSTANTS
-  Contents <- C3
+  Contents <- C1
   BoundModes <- BM1
   MenuKind = "focus"
   MaxDepth = 5
